@@ -88,7 +88,16 @@ def _get_version(s, idx):
     return (canon(v), canon(aux))
 
 
-def _query(obj, ctx, q):
+def _sweep_units(dw, what):
+    acc = []
+    for cu in dw.iter_CUs():
+        top = cu.get_top_DIE()
+        n = sum(1 for _ in cu.iter_DIEs()) if what == 'dies' else 0
+        acc.append((cu.cu_offset, top.tag, n))
+    return ('swept', len(acc), digest(canon(acc)))
+
+
+def _query(obj, ctx, q, extra=None):
     """One query on the held object: a generator of steps."""
     n = q[0]
     a = q[1:]
@@ -147,6 +156,10 @@ def _query(obj, ctx, q):
         yield from one(lambda: canon(obj.header))
     elif n == 'get_interp_name':
         yield from one(obj.get_interp_name)
+    elif n == 'sweep_units':
+        # every unit of the file visited while the object is held (what the caller holds must survive whatever the
+        # library does to its caches across many units)
+        yield from one(_sweep_units, extra, a[0], conv=lambda v: v)
     elif n == 'attrs':
         yield from one(lambda: tuple((k, canon(tuple(v))) for k, v in obj.attributes.items()))
     else:
@@ -159,4 +172,4 @@ def session(ctx, target, queries, ttype=None):
     if not ok:
         return
     for q in queries:
-        yield from _query(obj, ctx, q)
+        yield from _query(obj, ctx, q, extra)
